@@ -2,19 +2,23 @@ package vsched
 
 import (
 	"fmt"
+	"os"
 	"time"
 )
 
+var debugExplore = os.Getenv("VERIF_DEBUG_EXPLORE") != ""
+
 // ExploreCfg bounds one exhaustive exploration.
 type ExploreCfg struct {
-	Name     string
-	Bound    int  // maximal number of deviations (preemptions, early timers, non-default env answers)
-	EnvFree  bool // environment choices cost nothing (all values explored at every bound)
-	MaxSteps int  // per-execution horizon (reported as cap when hit)
-	MaxExecs int  // 0 = unlimited
-	Deadline time.Time
-	Shard    int // this worker explores the level-1 subtrees with index % NShards == Shard
-	NShards  int
+	Name         string
+	Bound        int  // maximal number of deviations (preemptions, early timers, non-default env answers)
+	EnvFree      bool // environment choices cost nothing (all values explored at every bound)
+	FreeSwitches bool // non-preemptive switches cost nothing (preemption bounding instead of delay bounding)
+	MaxSteps     int  // per-execution horizon (reported as cap when hit)
+	MaxExecs     int  // 0 = unlimited
+	Deadline     time.Time
+	Shard        int // this worker explores the level-1 subtrees with index % NShards == Shard
+	NShards      int
 }
 
 // Violation is one failed execution.
@@ -51,7 +55,13 @@ type frame struct {
 	alt     int
 }
 
-func altCost(p PointRec, alt int, envFree bool) int {
+// altCost is the number of deviations charged for taking alternative alt at p.
+// Preempting a runnable thread always costs one. With freeSwitches (classic
+// preemption bounding) the choice of the next thread after the running one
+// blocked or finished is free; without it (delay bounding, the default) every
+// departure from the canonical order costs one, which keeps executions with many
+// simultaneously runnable background threads tractable.
+func altCost(p PointRec, alt int, envFree, freeSwitches bool) int {
 	if p.Env {
 		if envFree {
 			return 0
@@ -64,7 +74,10 @@ func altCost(p PointRec, alt int, envFree bool) int {
 	if p.HasTimer && alt == p.N-1 {
 		return 1
 	}
-	return 0
+	if freeSwitches {
+		return 0
+	}
+	return 1
 }
 
 // Explore runs body under every schedule within cfg. check is called after each
@@ -103,6 +116,20 @@ func Explore(cfg ExploreCfg, body func(), check func(x *Exec) (outcome string, s
 		}
 		out, sig, msg := check(x)
 		res.Outcomes[out]++
+		if debugExplore && res.Execs%5000 == 0 {
+			nz := 0
+			for _, c := range x.Choices {
+				if c != 0 {
+					nz++
+				}
+			}
+			fmt.Fprintf(os.Stderr, "explore %s: exec %d points=%d nonzero=%d choices=%v\n", cfg.Name, res.Execs, len(x.Points), nz, x.Choices)
+			for i, p := range x.Points {
+				if x.Choices[i] != 0 {
+					fmt.Fprintf(os.Stderr, "   point %d: N=%d chosen=%d curEnabled=%v timer=%v env=%v thread=%d where=%s\n", i, p.N, p.Chosen, p.CurEnabled, p.HasTimer, p.Env, p.Thread, p.Where)
+				}
+			}
+		}
 		if len(res.Sample) < 3 && nt {
 			res.Sample = append(res.Sample, fmt.Sprintf("choices=%v outcome=%s", x.Choices, out))
 		}
@@ -145,7 +172,7 @@ func Explore(cfg ExploreCfg, body func(), check func(x *Exec) (outcome string, s
 				f.alt = 1
 				continue
 			}
-			c := f.cost + altCost(p, f.alt, cfg.EnvFree)
+			c := f.cost + altCost(p, f.alt, cfg.EnvFree, cfg.FreeSwitches)
 			alt := f.alt
 			f.alt++
 			if c > cfg.Bound {
